@@ -18,3 +18,4 @@ INVARIANT FailClosed
 INVARIANT NoOverRejectPlain
 INVARIANT NoOverReject
 INVARIANT LoadBase
+INVARIANT RealpathAgreesWithKernel
